@@ -191,6 +191,8 @@ func (cfg *ipCfg[S]) block(act *ipAct, b, pred *ssa.BasicBlock, from int, s S, e
 					cfg.enter(d, h, s, env, stack, fns, func(_ *ssa.Return, s2 S, e2 *pathEnv) { runDefer(n-1, s2, e2) })
 					return
 				}
+				env = env.clone()
+				env.clobberedBy(d)
 				runDefer(n-1, s, env)
 			}
 			runDefer(len(ds)-1, s, env)
@@ -215,6 +217,10 @@ func (cfg *ipCfg[S]) block(act *ipAct, b, pred *ssa.BasicBlock, from int, s S, e
 				})
 				return
 			}
+			env.clobberedBy(x)
+		case *ssa.Store:
+			env.store(x)
+			s = cfg.Step(x, s, env, stack)
 		case *ssa.Return:
 			k(x, s, env)
 			return
